@@ -34,4 +34,8 @@ def replay(o, seed):
         return C10.replay(o, seed)
     from props.common import try_candidates
     from props.replays import message_candidates
-    return try_candidates("message_decode", message_candidates(o, seed, focus=lambda ident: "1070" <= ident <= "1229"), key=lambda i, r: "decode-msm")
+    r = try_candidates("message_decode", message_candidates(o, seed, focus=lambda ident: "1070" <= ident <= "1229"), key=lambda i, r: "decode-msm")
+    if r.get("reproduced"):
+        return r
+    from props import C13  # label/PRN maps that depend on what was parsed before (caches)
+    return try_candidates("history_independence", C13.history_candidates(seed, 80), key=lambda i, r: "history")
